@@ -1,6 +1,7 @@
 package props
 
 import (
+	"fmt"
 	"go/ast"
 	"go/token"
 	"go/types"
@@ -29,30 +30,32 @@ func init() {
 }
 
 func runC06(c *core.Ctx) {
-	ruleFilterNames(c)
-	ruleFilterKeys(c)
-	ruleEncodeDecodeArgs(c)
-	ruleOpenStreamFilterOrder(c)
-	ruleLZWWidthAdvance(c, "C06-R7")
-	ruleLZWConstants(c, "C06-R7")
-	ruleCCITTRunBoundary(c)
-	ruleRunLengthBounds(c, "C06-R9")
-	ruleCCITTRefLine(c, "C06-R10")
-	ruleLZWEarlyChange(c)
-	ruleCCITTNoEOLInGroup4(c)
-	ruleCCITTTables(c, "C06-R6")
-	ruleBitAccumulatorReset(c, "C06-R15")
-	rulePredictorInDict(c, "C06-R16")
-	rulePoolPutOwnership(c, "C06-R17")
-	ruleASCII85PendingOutput(c, "C06-R18")
-	ruleCCITTByteAlign(c, "C06-R19")
-	ruleCCITTRunLoops(c, "C06-R20")
-	ruleCCITTLookahead(c, "C06-R21")
-	ruleCCITTTagAfterEOL(c, "C06-R22")
-	ruleCCITTEncoderTerminating(c, "C06-R23")
-	ruleCCITTColourTables(c, "C06-R24")
-	ruleResetComplete(c, "C06-R25")
-	ruleAliasHygiene(c, [3]string{"C06-R12", "C06-R13", "C06-R14"}, "pdf/internal/filter/lzw", "pdf/internal/filter/predict", "pdf/internal/filter/runlength", "pdf/internal/filter/ccittfax", "pdf/internal/filter/ascii85", "pdf/internal/filter/asciihex")
+	c.Guard(func() { ruleFilterNames(c) })
+	c.Guard(func() { ruleFilterKeys(c) })
+	c.Guard(func() { ruleEncodeDecodeArgs(c) })
+	c.Guard(func() { ruleOpenStreamFilterOrder(c) })
+	c.Guard(func() { ruleLZWWidthAdvance(c, "C06-R7") })
+	c.Guard(func() { ruleLZWConstants(c, "C06-R7") })
+	c.Guard(func() { ruleCCITTRunBoundary(c) })
+	c.Guard(func() { ruleRunLengthBounds(c, "C06-R9") })
+	c.Guard(func() { ruleCCITTRefLine(c, "C06-R10") })
+	c.Guard(func() { ruleLZWEarlyChange(c) })
+	c.Guard(func() { ruleCCITTNoEOLInGroup4(c) })
+	c.Guard(func() { ruleCCITTTables(c, "C06-R6") })
+	c.Guard(func() { ruleBitAccumulatorReset(c, "C06-R15") })
+	c.Guard(func() { rulePredictorInDict(c, "C06-R16") })
+	c.Guard(func() { rulePoolPutOwnership(c, "C06-R17") })
+	c.Guard(func() { ruleASCII85PendingOutput(c, "C06-R18") })
+	c.Guard(func() { ruleCCITTByteAlign(c, "C06-R19") })
+	c.Guard(func() { ruleCCITTRunLoops(c, "C06-R20") })
+	c.Guard(func() { ruleCCITTLookahead(c, "C06-R21") })
+	c.Guard(func() { ruleCCITTTagAfterEOL(c, "C06-R22") })
+	c.Guard(func() { ruleCCITTEncoderTerminating(c, "C06-R23") })
+	c.Guard(func() { ruleCCITTColourTables(c, "C06-R24") })
+	c.Guard(func() { ruleResetComplete(c, "C06-R25") })
+	c.Guard(func() {
+		ruleAliasHygiene(c, [3]string{"C06-R12", "C06-R13", "C06-R14"}, "pdf/internal/filter/lzw", "pdf/internal/filter/predict", "pdf/internal/filter/runlength", "pdf/internal/filter/ccittfax", "pdf/internal/filter/ascii85", "pdf/internal/filter/asciihex")
+	})
 }
 
 // ruleCCITTRunBoundary: make-up codes may add up to exactly the row width; the
@@ -94,20 +97,20 @@ func ruleCCITTRunBoundary(c *core.Ctx) {
 }
 
 func runC07(c *core.Ctx) {
-	ruleLZWConstants(c, "C07-R1")
-	ruleCodecConstants(c)
-	rulePaeth(c, "C07-R4")
-	ruleLZWWidthAdvance(c, "C07-R5")
-	rulePredictorGeometry(c, "C07-R6")
-	ruleTIFF16Carry(c, "C07-R7")
-	rulePNGAverage(c, "C07-R8")
-	ruleCCITTTables(c, "C07-R2")
-	ruleBitAccumulatorReset(c, "C07-R9")
+	c.Guard(func() { ruleLZWConstants(c, "C07-R1") })
+	c.Guard(func() { ruleCodecConstants(c) })
+	c.Guard(func() { rulePaeth(c, "C07-R4") })
+	c.Guard(func() { ruleLZWWidthAdvance(c, "C07-R5") })
+	c.Guard(func() { rulePredictorGeometry(c, "C07-R6") })
+	c.Guard(func() { ruleTIFF16Carry(c, "C07-R7") })
+	c.Guard(func() { rulePNGAverage(c, "C07-R8") })
+	c.Guard(func() { ruleCCITTTables(c, "C07-R2") })
+	c.Guard(func() { ruleBitAccumulatorReset(c, "C07-R9") })
 	// foreign Group 3/4 data end rows with make-up codes and omit end-of-block patterns as well
-	ruleCCITTRunLoops(c, "C07-R10")
-	ruleCCITTLookahead(c, "C07-R11")
-	ruleCCITTEncoderTerminating(c, "C07-R12")
-	ruleCCITTColourTables(c, "C07-R13")
+	c.Guard(func() { ruleCCITTRunLoops(c, "C07-R10") })
+	c.Guard(func() { ruleCCITTLookahead(c, "C07-R11") })
+	c.Guard(func() { ruleCCITTEncoderTerminating(c, "C07-R12") })
+	c.Guard(func() { ruleCCITTColourTables(c, "C07-R13") })
 }
 
 func ruleFilterNames(c *core.Ctx) {
@@ -239,6 +242,50 @@ func ruleEncodeDecodeArgs(c *core.Ctx) {
 				core.Undecided("codec calls not found")
 			}
 			o.Count(len(ea))
+			// by parameter name when the two helpers name their parameters alike: the order of
+			// the parameters of either helper does not matter then
+			byName := func(fn *core.Func, callee string) map[string]string {
+				for _, call := range core.CallsTo(fn.Info(), fn.Decl, false, callee) {
+					sig, _ := fn.Info().TypeOf(call.Fun).(*types.Signature)
+					if sig == nil || sig.Params().Len() != len(call.Args) || sig.Variadic() {
+						return nil
+					}
+					out := map[string]string{}
+					for i, a := range call.Args {
+						s := core.ExprStr(a)
+						if s == "w" || s == "r" || s == "budget" {
+							continue
+						}
+						name := sig.Params().At(i).Name()
+						if name == "" || name == "_" {
+							return nil
+						}
+						out[name] = s
+					}
+					return out
+				}
+				return nil
+			}
+			en, dn := byName(enc, "pdf.encodeFlateLZW"), byName(dec, "pdf.decodeFlateLZW")
+			sameNames := en != nil && dn != nil && len(en) == len(dn)
+			for k := range en {
+				if _, ok := dn[k]; !ok {
+					sameNames = false
+				}
+			}
+			if sameNames {
+				var diff []string
+				for k, v := range en {
+					if dn[k] != v {
+						diff = append(diff, fmt.Sprintf("%s: Encode passes %s, Decode passes %s", k, v, dn[k]))
+					}
+				}
+				sort.Strings(diff)
+				if len(diff) > 0 {
+					o.Fail("%s", strings.Join(diff, "; "))
+				}
+				return
+			}
 			if strings.Join(ea, ",") != strings.Join(da, ",") {
 				// one side may bundle the parameters into a struct literal: then the values are
 				// compared as a set (zero values left out); the positions cannot be compared
@@ -604,6 +651,46 @@ func rulePaeth(c *core.Ctx, rule string) {
 			core.Undecided("paethPredictor does not have three parameters")
 		}
 		a, b, cc := ps[0], ps[1], ps[2]
+		// by value first: the function is loop-free and pure, so it can be evaluated for a grid of
+		// neighbour bytes (all ties and all orders of the three distances occur) and compared with
+		// the predictor of the PNG specification, however its conditions are written
+		grid := []int64{0, 1, 2, 3, 4, 7, 64, 127, 128, 129, 200, 253, 254, 255}
+		nEval, bad := 0, ""
+		dec, why := c.Prog.TabulateFunc(fn, map[string][]int64{a: grid, b: grid, cc: grid}, func(env map[string]int64, n int64, _ bool) {
+			av, ok1 := core.EnvGet(env, a)
+			bv, ok2 := core.EnvGet(env, b)
+			cv, ok3 := core.EnvGet(env, cc)
+			if !ok1 || !ok2 || !ok3 {
+				return
+			}
+			nEval++
+			abs := func(x int64) int64 {
+				if x < 0 {
+					return -x
+				}
+				return x
+			}
+			est := av + bv - cv
+			pa, pb, pc := abs(est-av), abs(est-bv), abs(est-cv)
+			want := cv
+			if pa <= pb && pa <= pc {
+				want = av
+			} else if pb <= pc {
+				want = bv
+			}
+			if n != want && bad == "" {
+				bad = fmt.Sprintf("paethPredictor(%d, %d, %d) is %d, the PNG specification says %d", av, bv, cv, n, want)
+			}
+		})
+		if dec && nEval == len(grid)*len(grid)*len(grid) {
+			o.Count(nEval)
+			o.Fact("paethPredictor evaluated for %d triples of neighbour bytes and compared with the PNG specification", nEval)
+			if bad != "" {
+				o.Fail("%s", bad)
+			}
+			return
+		}
+		o.Fact("evaluation by value not possible (%s); the written form is compared instead", why)
 		// distances: pX := abs(p - int(X))
 		dist := map[string]string{}
 		ast.Inspect(fn.Decl.Body, func(n ast.Node) bool {
